@@ -263,7 +263,7 @@ def run(ck, build):
             if form == "N0":
                 nesc += check_escape(ck, mod, label)
     nasm = check_asm(ck, build)
-    ck.floor("R-C19-IMPORTS", "import call sites analysed", ncall, 20)
+    ck.floor("R-C19-IMPORTS", "import call sites analysed", ncall, 10)
     ck.floor("R-C19-GLOBALS", "assembly programs scanned", nasm, 27)
     ck.floor("R-C19-ESCAPE", "pointer-parameter stores examined", nesc, 2)
     ck.floor("R-C19", "functions in H/N0 module", len(full.fns), 50)
